@@ -134,6 +134,17 @@ func NewUDPConn(config *AllocationConfig) *UDPConn {
 // see SetDeadline and SetReadDeadline.
 func (c *UDPConn) ReadFrom(p []byte) (n int, addr net.Addr, err error) {
 	for {
+		// A deadline that has passed fails every read until it is moved,
+		// not only the one that was blocked when it expired.
+		if dl := c.readDeadline.Load(); dl != 0 && time.Now().UnixNano() >= dl {
+			return 0, nil, &net.OpError{
+				Op:   "read",
+				Net:  c.LocalAddr().Network(),
+				Addr: c.LocalAddr(),
+				Err:  newTimeoutError("i/o timeout"),
+			}
+		}
+
 		select {
 		case ibData := <-c.readCh:
 			n := copy(p, ibData.data)
@@ -331,8 +342,10 @@ func (c *UDPConn) SetReadDeadline(t time.Time) error {
 	var d time.Duration
 	if t.Equal(noDeadline()) {
 		d = time.Duration(math.MaxInt64)
+		c.readDeadline.Store(0)
 	} else {
 		d = time.Until(t)
+		c.readDeadline.Store(t.UnixNano())
 	}
 	c.readTimer.Reset(d)
 
